@@ -60,8 +60,12 @@ def main():
         if prev.get("checks") and set(props) != set(ALL):
             # a partial re-run (after a check was extended): merge into the earlier full result
             merged = dict(prev["checks"], **res["checks"])
-            res = dict(prev, **res, checks=merged, silent=all(c["exit"] == 0 for c in merged.values()))
-            res.setdefault("reruns", []).append({"props": props, "tier": args.tier})
+            out = dict(prev)
+            out.update(res)
+            out["checks"] = merged
+            out["silent"] = all(c["exit"] == 0 for c in merged.values())
+            out["reruns"] = prev.get("reruns", []) + [{"props": props, "tier": args.tier}]
+            res = out
         meta["results"] = res
         json.dump(meta, open(os.path.join(dst, "meta.json"), "w"), indent=1)
         print(json.dumps({k: v for k, v in res.items() if k != "checks"}))
